@@ -122,7 +122,18 @@ def name_return(sig, ident):
     arrow = None
     i = 0
     # find the params' closing paren first
-    start = sig.index('(')
+    m0 = re.search(r'\bfn\s+[A-Za-z0-9_]+', sig)
+    start = m0.end()
+    ad = 0
+    while start < len(sig):
+        ch = sig[start]
+        if ch == '<':
+            ad += 1
+        elif ch == '>' and sig[start - 1] != '-':
+            ad -= 1
+        elif ch == '(' and ad == 0:
+            break
+        start += 1
     for i in range(start, len(sig)):
         if sig[i] in '([':
             depth += 1
@@ -165,7 +176,30 @@ def assemble(template_path, repo=None):
             srcs[rel] = Source(p)
         return srcs[rel]
 
-    tl = open(template_path).read().split('\n')
+    def load(path, depth=0):
+        out_l = []
+        for l in open(path).read().split('\n'):
+            if l.startswith('//@include '):
+                inc = os.path.join(os.path.dirname(path), l.split(None, 1)[1].strip())
+                out_l += load(inc, depth + 1)
+            else:
+                out_l.append(l)
+        return out_l
+
+    tl = load(template_path)
+    # //@set NAME value   ... ${NAME} in later directive lines
+    tvars = {}
+    tl2 = []
+    for l in tl:
+        if l.startswith('//@set '):
+            _, name, *val = l.split(None, 2)
+            tvars[name] = val[0] if val else ''
+            continue
+        if l.startswith('//@') and '${' in l:
+            for k, v in tvars.items():
+                l = l.replace('${' + k + '}', v)
+        tl2.append(l)
+    tl = tl2
     i = 0
     cur = None      # open impl: (rel, src, hdr_start, open, close)
     while i < len(tl):
@@ -216,7 +250,26 @@ def assemble(template_path, repo=None):
             rel, hdr = pos[0], pos[1]
             s = src_of(rel)
             hs, ob, cl = find_block(s, hdr, nth=int(kw.get('nth', 1)))
-            cur = (rel, s, hs, ob, cl)
+            assoc = {}
+            if 'as' in kw:
+                # re-home the methods of a trait impl in an inherent impl (trait methods cannot carry
+                # `requires` in Verus).  The header is replaced by kw['as']; associated types of the
+                # impl (`type X = T;`) are substituted for `Self::X` in the copied functions.
+                for m in re.compile(r'^[ \t]*type\s+([A-Za-z0-9_]+)\s*=\s*([^;]*);', re.M).finditer(s.text, ob, cl):
+                    if s.code[m.start()]:
+                        assoc['Self::' + m.group(1)] = m.group(2).strip()
+                cur = (rel, s, hs, ob, cl, assoc)
+                out.emit(kw['as'] + ' {')
+                out.dropped.append(f'{rel}: trait impl header `{norm_ws_hdr(s.text[hs:ob])}` re-homed as inherent `{kw["as"]}`'
+                                   + (f'; substituted {assoc}' if assoc else ''))
+                i += 1
+                continue
+            if 'subst' in kw:
+                # stated type-alias substitution, e.g. subst="<Self as Iterator>::Item=>&'a T"
+                a, b = kw['subst'].split('=>')
+                assoc[a.strip()] = b.strip()
+                out.dropped.append(f'{rel}: in `{norm_ws_hdr(s.text[hs:ob])}`: substituted `{a.strip()}` by `{b.strip()}`')
+            cur = (rel, s, hs, ob, cl, assoc)
             out.emit_mapped(s.text[hs:ob + 1], rel, s.line_of(hs))
             # associated types / consts of the impl are copied verbatim
             for m in s.finditer_code(r'^[ \t]*(type|const)\s[^;{]*;', ob, cl) if False else \
@@ -235,15 +288,16 @@ def assemble(template_path, repo=None):
             if cmd == 'fn':
                 if cur is None:
                     raise TemplateError(f'{template_path}:{i+1}: //@fn outside //@open')
-                rel, s, hs, ob, cl = cur
+                rel, s, hs, ob, cl, assoc = cur
                 name = pos[0]
                 istart, sig, bo, bc = find_fn(s, name, ob, cl)
-                qual_prefix = norm_ws_hdr(s.text[hs:ob])
+                qual_prefix = short_impl_name(norm_ws_hdr(s.text[hs:ob]))
             else:
                 rel, name = pos[0], pos[1]
                 s = src_of(rel)
                 istart, sig, bo, bc = find_fn(s, name, 0, len(s.text))
                 qual_prefix = ''
+                assoc = {}
             # gather sub-directives
             i += 1
             spec_lines, loop_ins, at_ins = [], {}, []
@@ -317,13 +371,17 @@ def assemble(template_path, repo=None):
                 insertions.append((o, '\n' + '\n'.join(a['lines']) + '\n'))
             verb = s.text[sig:bc + 1]
             assembled = apply_insertions(verb, sig, insertions)
+            verb_cmp = verb
+            for k, v in assoc.items():
+                assembled = re.sub(re.escape(k) + r'(?![A-Za-z0-9_])', v, assembled)
+                verb_cmp = re.sub(re.escape(k) + r'(?![A-Za-z0-9_])', v, verb_cmp)
             # attributes above the fn: keep #[inline]-like attrs? they are dropped (docs too) and recorded
             attr_text = s.text[istart:sig]
             for al in attr_text.split('\n'):
                 al = al.strip()
                 if al.startswith('#['):
                     out.dropped.append(f'{rel}: fn {name}: attribute {al}')
-            if 'attr' in kw:
+            if kw.get('attr'):
                 out.emit('    ' + kw['attr'])
             region = f'{qual_prefix}::{name}' if qual_prefix else name
             out.emit_mapped('    ' + assembled if cmd == 'fn' else assembled, rel, s.line_of(sig), region=region)
@@ -332,10 +390,20 @@ def assemble(template_path, repo=None):
                                   'sha256': hashlib.sha256(verb.encode()).hexdigest()[:16],
                                   'spec_clauses': len([x for x in spec_lines if x.strip()]),
                                   'loop_annotations': len(loop_ins), 'inserted_proof_blocks': len(at_ins)})
-            out.identity_checks.append((f'{rel}: fn {name}', strip_insertions(assembled), verb))
+            out.identity_checks.append((f'{rel}: fn {name}', strip_insertions(assembled), verb_cmp))
         else:
             raise TemplateError(f'{template_path}:{i+1}: unknown directive {cmd}')
     return out
+
+
+def short_impl_name(hdr):
+    """`impl<'a, T> Iterator for Iter<'a, T>` -> `Iter(Iterator)`; `impl Shape` -> `Shape`"""
+    h = re.sub(r'^impl\s*(<[^>]*>)?\s*', '', hdr)
+    h = h.split(' where ')[0]
+    if ' for ' in h:
+        tr, ty = h.split(' for ', 1)
+        return re.match(r'[A-Za-z0-9_:]+', ty.strip()).group(0) + '(' + re.match(r'[A-Za-z0-9_:]+', tr.strip()).group(0) + ')'
+    return re.match(r'[A-Za-z0-9_:]+', h.strip()).group(0)
 
 
 def norm_ws_hdr(s):
